@@ -25,6 +25,9 @@ type C02Case struct {
 	Layer     []int `json:"layer"`
 	FileRoute bool  `json:"file_route,omitempty"`
 	Exts      []string `json:"exts,omitempty"`
+	// Debug: the parser under test logs ("api": SetDebug(true); "env":
+	// BKL_DEBUG=1 in its environment) — an observer that must not matter
+	Debug string `json:"debug,omitempty"`
 }
 
 var c02Kinds = []string{"svc", "cfg"}
@@ -44,6 +47,9 @@ func genC02(r *gen.Rand, maxLayers int) *C02Case {
 	c := &C02Case{}
 	c.Sched = wire.Sched{Mode: "Hash", Seed: r.U64() >> 1, Coin: gen.PickAny(r, []float64{0, 0.5, 1})}
 	c.FileRoute = r.Chance(0.3)
+	if r.Chance(0.12) {
+		c.Debug = r.Pick("api", "env")
+	}
 	tc := c02Tree(true)
 	add := func(op wire.Op, chain, layer int) {
 		c.Ops = append(c.Ops, op)
@@ -350,6 +356,12 @@ func c02Request(c *C02Case, p *c02Plan, run int64, cwd string) *wire.Request {
 		}
 	}
 	main.Ops = append(main.Ops, wire.Op{Op: "OutputDocuments"})
+	switch c.Debug {
+	case "api":
+		main.Debug = true
+	case "env":
+		main.Env = map[string]string{"BKL_DEBUG": "1"}
+	}
 	req.Tasks = append(req.Tasks, main)
 	for _, sd := range p.m.State {
 		var t wire.TaskSpec
@@ -610,6 +622,11 @@ func c02Candidates(c *C02Case) []*C02Case {
 		var n C02Case
 		_ = json.Unmarshal(js, &n)
 		return &n
+	}
+	if c.Debug != "" {
+		n := clone()
+		n.Debug = ""
+		out = append(out, n)
 	}
 	for i := len(c.Ops) - 1; i >= 0; i-- {
 		n := clone()
